@@ -70,8 +70,10 @@ ApplyH(R, s, q) ==
                                       ELSE AAdd(R, Amp(R, s, b), Amp(R, s, QFlip(b, q)))]
   IN Canon(R, [amp |-> Prune(R, f), k |-> s.k + 1])
 
-KnownKinds == {"H", "X", "Y", "Z", "S", "T", "P", "MCX", "MCZ", "MCP", "SWAP", "I", "BAR"}
-RealKinds == {"H", "X", "Z", "MCX", "MCZ", "SWAP", "I", "BAR"}
+\* "ORA" is not a library gate: the abstract xor-oracle |x>|r> -> |x>|r xor [x in sol]> used by the
+\* reference constructions in Algo.tla: w = <<register qubits..., r>>, sol = set of register values
+KnownKinds == {"H", "X", "Y", "Z", "S", "T", "P", "MCX", "MCZ", "MCP", "SWAP", "I", "BAR", "ORA"}
+RealKinds == {"H", "X", "Z", "MCX", "MCZ", "SWAP", "I", "BAR", "ORA"}
 IsOpaque(g) == g.k \notin KnownKinds \/ (g.k \in {"P", "MCP"} /\ g.m < 0)
 NeedsC(gates) == \E j \in 1..Len(gates) : gates[j].k \notin RealKinds
 RingFor(gates) == IF NeedsC(gates) THEN "C" ELSE "Z"
@@ -89,6 +91,9 @@ ApplyQ(R, s, g) ==
                     IN Relabel(s1, LAMBDA b : QFlip(b, g.w[1]))
     [] g.k = "SWAP" -> Relabel(s, LAMBDA b : IF QBit(b, g.w[1]) = QBit(b, g.w[2]) THEN b ELSE QFlip(QFlip(b, g.w[1]), g.w[2]))
     [] g.k \in {"I", "BAR"} -> s
+    [] g.k = "ORA" -> LET reg == QCtrl(g.w)
+                          Val(b) == LET RECURSIVE F(_) F(j) == IF j > Len(reg) THEN 0 ELSE (IF QBit(b, reg[j]) THEN Q2(j - 1) ELSE 0) + F(j + 1) IN F(1)
+                      IN Relabel(s, LAMBDA b : IF Val(b) \in g.sol THEN QFlip(b, QTgt(g.w)) ELSE b)
 
 RECURSIVE RunQFrom(_, _, _, _)
 RunQFrom(R, gates, j, s) == IF j > Len(gates) THEN s ELSE RunQFrom(R, gates, j + 1, ApplyQ(R, s, gates[j]))
